@@ -3,6 +3,7 @@ import YV.Drv.C01
 import YV.Drv.XB
 import YV.Drv.C02
 import YV.Drv.C03
+import YV.Drv.Y
 open Lean YV.Drv
 
 def dispatch (j : Json) : List (String × Json) :=
@@ -12,6 +13,7 @@ def dispatch (j : Json) : List (String × Json) :=
   | "xbuild" => XB.handle j
   | "c02" => C02.handle j
   | "c03" => C03.handle j
+  | "yparse" => Y.handle j
   | k => [("m", Json.str ("unknown-kind:" ++ k)), ("s", Json.str "unknown-kind")]
 
 partial def loop (hin : IO.FS.Stream) (hout : IO.FS.Stream) : IO Unit := do
